@@ -125,7 +125,7 @@ def get_facts(repo='/repo', cfg='A', verbose=False):
         lock.close()
 
 
-def _prune(root, keep, max_entries=12):
+def _prune(root, keep, max_entries=48):
     try:
         ents = [(os.path.getmtime(os.path.join(root, d)), d) for d in os.listdir(root) if d != keep]
     except OSError:
